@@ -780,7 +780,28 @@ theorem arm_shutdown {s : St} {t sf tx : Nat} (hst : s.state = .shutdown t sf tx
 theorem arm_avail_pending {s s1 : St} (hst : s.state = .available) (h : availLoop s s.queue = (s1, .pending)) :
     arm s = (s1, false) := by simp only [arm, hst, h]
 theorem arm_avail_closed {s s1 : St} (hst : s.state = .available) (h : availLoop s s.queue = (s1, .closed)) :
-    arm s = (finish s1 false, false) := by simp only [arm, hst, h]
+    arm s = closedArm s1 := by simp only [arm, hst, h]
+
+theorem closedArm_nil_open {s : St} (hq : s.stopQ = []) (ho : s.stopOpen = true) :
+    closedArm s = ({ s with stopWaker := true }, false) := by simp [closedArm, hq, ho]
+theorem closedArm_nil_closed {s : St} (hq : s.stopQ = []) (ho : s.stopOpen = false) :
+    closedArm s = (finish s false, false) := by simp [closedArm, hq, ho]
+theorem closedArm_cons {s : St} {a : Nat × Bool} {rest : List (Nat × Bool)} (hq : s.stopQ = a :: rest) :
+    closedArm s = ((stopPhase s).1, !(stopPhase s).2) := by simp only [closedArm, hq]
+
+/-- case analysis of the `None` arm -/
+theorem closedArm_cases (s : St) :
+    (s.stopQ = [] ∧ s.stopOpen = true ∧ closedArm s = ({ s with stopWaker := true }, false)) ∨
+    (s.stopQ = [] ∧ s.stopOpen = false ∧ closedArm s = (finish s false, false)) ∨
+    (s.stopQ ≠ [] ∧ closedArm s = ((stopPhase s).1, !(stopPhase s).2)) := by
+  by_cases hq : s.stopQ = []
+  · by_cases ho : s.stopOpen = true
+    · exact Or.inl ⟨hq, ho, closedArm_nil_open hq ho⟩
+    · have ho' : s.stopOpen = false := by simpa using ho
+      exact Or.inr (Or.inl ⟨hq, ho', closedArm_nil_closed hq ho'⟩)
+  · obtain ⟨a, rest, h⟩ := List.exists_cons_of_ne_nil hq
+    exact Or.inr (Or.inr ⟨hq, closedArm_cons h⟩)
+
 theorem arm_avail_unavail {s s1 : St} (hst : s.state = .available) (h : availLoop s s.queue = (s1, .toUnavailable)) :
     arm s = ({ s1 with state := .unavailable }, true) := by simp only [arm, hst, h]
 theorem arm_avail_restart {s s1 : St} {i : Nat} (hst : s.state = .available) (h : availLoop s s.queue = (s1, .restart i)) :
@@ -907,7 +928,14 @@ theorem Good.arm {s : St} (h : Good s) (hf : s.finished = false) :
       rw [c3, hst]; exact k5 (by simp)
     | closed =>
       rw [arm_avail_closed hst hal]
-      exact ⟨(hmid.sweepOk (s' := s1) (g6 (by simp)) g1 c1 rfl c8).finish _, by simp⟩
+      have hl1 : GoodLog s1 := hmid.sweepOk (s' := s1) (g6 (by simp)) g1 c1 rfl c8
+      have hg1 : Good s1 := ⟨Or.inr (by rw [c3, hst]; exact k5 (by simp)), hl1⟩
+      rcases closedArm_cases s1 with ⟨_, _, e⟩ | ⟨_, _, e⟩ | ⟨_, e⟩ <;> rw [e]
+      · exact ⟨⟨hg1.svc, hl1.guarded, hl1.fifo, hl1.pairs⟩, by simp⟩
+      · exact ⟨hl1.finish _, by simp⟩
+      · refine ⟨hg1.stopPhase, fun h => ?_⟩
+        simp only [Bool.not_eq_eq_eq_not, Bool.not_true] at h
+        exact (stopPhase_finished s1 h).trans (c11.trans hf)
     | toUnavailable =>
       rw [arm_avail_unavail hst hal]
       exact ⟨⟨Or.inr (k5 (by simp)), hmid.sweepOk (g6 (by simp)) g1 c1 rfl c8⟩, fun _ => c11.trans hf⟩
@@ -975,6 +1003,12 @@ theorem Good.step {s : St} (h : Good s) (op : Op) : Good (step s op).1 := by
     split
     · exact h
     · exact ⟨h.svc, h.lg.guarded, h.lg.fifo, h.lg.pairs⟩
+  | closeStop =>
+    simp only [ActixNet.Worker.step]
+    split
+    · exact h
+    · exact ⟨h.svc, h.lg.guarded, h.lg.fifo, h.lg.pairs⟩
+  | pollY fuel acts => exact h
   | stop g =>
     simp only [ActixNet.Worker.step]
     split
@@ -1004,6 +1038,45 @@ theorem Good.step {s : St} (h : Good s) (op : Op) : Good (step s op).1 := by
       refine Good.pollW fuel _ ⟨h.svc, h.lg.plain (s' := emit s [.enter]) [.enter] ?_ rfl rfl rfl rfl⟩ hc.2
       intro e he; simp at he; subst he; exact ⟨rfl, rfl, rfl, rfl⟩
 
+theorem EnvOp.step_finished (s : St) (a : EnvOp) : (step s a.toOp).1.finished = s.finished := by
+  cases a <;> simp only [EnvOp.toOp, ActixNet.Worker.step] <;> (try split) <;> (try split) <;> rfl
+
+theorem Good.runEnv (acts : List EnvOp) : ∀ (s : St), Good s → Good (ActixNet.Worker.runEnv s acts).1 := by
+  induction acts with
+  | nil => intro s h; exact h
+  | cons a as ih => intro s h; exact ih _ (h.step a.toOp)
+
+theorem runEnv_finished (acts : List EnvOp) : ∀ (s : St), (runEnv s acts).1.finished = s.finished := by
+  induction acts with
+  | nil => intro s; rfl
+  | cons a as ih => intro s; simp only [ActixNet.Worker.runEnv]; rw [ih, EnvOp.step_finished]
+
+theorem Good.pollY {s : St} (h : Good s) (hf : s.finished = false) (fuel : Nat) (acts : List EnvOp) :
+    Good (ActixNet.Worker.pollY fuel acts s).1 := by
+  unfold ActixNet.Worker.pollY
+  split
+  · exact h.stopPhase
+  · rename_i hc
+    simp only [Bool.or_eq_true, not_or, Bool.not_eq_true] at hc
+    have hf1 : (ActixNet.Worker.runEnv (ActixNet.Worker.stopPhase s).1 acts).1.finished = false := by
+      rw [runEnv_finished, stopPhase_finished s hc.1]; exact hf
+    obtain ⟨h1, h2⟩ := (Good.runEnv acts _ h.stopPhase).arm hf1
+    split
+    · rename_i hb; exact Good.pollW fuel _ h1 (h2 hb)
+    · exact h1
+
+theorem Good.stepY {s : St} (h : Good s) (op : Op) : Good (ActixNet.Worker.stepY s op).1 := by
+  cases op with
+  | pollY fuel acts =>
+    simp only [ActixNet.Worker.stepY]
+    split
+    · exact h
+    · rename_i hc
+      simp only [Bool.or_eq_true, not_or, Bool.not_eq_true] at hc
+      have hg' : Good (emit s [.enter]) := ⟨h.svc, h.lg.plain (s' := emit s [.enter]) [.enter] (by intro e he; simp at he; subst he; exact ⟨rfl, rfl, rfl, rfl⟩) rfl rfl rfl rfl⟩
+      exact Good.pollY hg' hc.2 fuel acts
+  | _ => exact h.step _
+
 theorem Good.init (cfg : Cfg) : Good (init cfg) := by
   refine ⟨Or.inr ?_, ?_, rfl, ?_⟩
   · show AllPolled (ActixNet.Worker.init cfg)
@@ -1014,7 +1087,7 @@ theorem Good.init (cfg : Cfg) : Good (init cfg) := by
 theorem Good.run (ops : List Op) : ∀ (s : St), Good s → Good (run s ops) := by
   induction ops with
   | nil => intro s h; exact h
-  | cons o os ih => intro s h; exact ih _ (h.step o)
+  | cons o os ih => intro s h; exact ih _ (h.stepY o)
 
 
 
@@ -1097,7 +1170,12 @@ theorem arm_n (s : St) : (arm s).1.n = s.n := by
       have := availLoop_core2 s.queue s; rw [hal] at this; exact congrArg (·.1) this
     cases r with
     | pending => rw [arm_avail_pending hst hal]; exact hn
-    | closed => rw [arm_avail_closed hst hal]; exact hn
+    | closed =>
+      rw [arm_avail_closed hst hal]
+      rcases closedArm_cases s1 with ⟨_, _, e⟩ | ⟨_, _, e⟩ | ⟨_, e⟩ <;> rw [e]
+      · exact hn
+      · exact hn
+      · exact (stopPhase_n s1).trans hn
     | toUnavailable => rw [arm_avail_unavail hst hal]; exact hn
     | restart i => rw [arm_avail_restart hst hal]; exact hn
     | fault => rw [arm_avail_fault hst hal]; exact hn
@@ -1119,10 +1197,31 @@ theorem step_n (s : St) (op : Op) : (step s op).1.n = s.n := by
   cases op <;> simp only [step] <;> (try split) <;> (try split) <;> (try rfl)
   exact pollW_n _ _
 
+theorem runEnv_n (acts : List EnvOp) : ∀ (s : St), (runEnv s acts).1.n = s.n := by
+  induction acts with
+  | nil => intro s; rfl
+  | cons a as ih => intro s; simp only [runEnv]; rw [ih, step_n]
+
+theorem pollY_n (fuel : Nat) (acts : List EnvOp) (s : St) : (pollY fuel acts s).1.n = s.n := by
+  unfold pollY
+  split
+  · exact stopPhase_n s
+  · split
+    · rw [pollW_n, arm_n, runEnv_n, stopPhase_n]
+    · rw [arm_n, runEnv_n, stopPhase_n]
+
+theorem stepY_n (s : St) (op : Op) : (stepY s op).1.n = s.n := by
+  cases op with
+  | pollY fuel acts =>
+    simp only [stepY]; split
+    · rfl
+    · exact pollY_n _ _ _
+  | _ => exact step_n _ _
+
 theorem run_n (ops : List Op) : ∀ (s : St), (run s ops).n = s.n := by
   induction ops with
   | nil => intro s; rfl
-  | cons o os ih => intro s; simp only [run]; rw [ih, step_n]
+  | cons o os ih => intro s; simp only [run]; rw [ih, stepY_n]
 
 
 
@@ -1399,12 +1498,12 @@ theorem shutdownArm_quiet (s : St) (t sf tx : Nat) :
       · by_cases c3 : Src.wcTotal (drained s).raw = 0
         · rw [shutdownArm_true sf tx hf c1 c2 c3]
           obtain ⟨e2, h3, h4⟩ := finish_quiet (emit (drained s) [.reply tx true]) true
-          exact ⟨hd, e1 ++ [.reply tx true] ++ e2, by rw [h3]; simp [h1], by rw [callsOf_append, callsOf_append, h2, h4]; rfl⟩
+          exact ⟨(finish_core4 (emit (drained s) [.reply tx true]) true).trans hd, e1 ++ [.reply tx true] ++ e2, by rw [h3]; simp [h1], by rw [callsOf_append, callsOf_append, h2, h4]; rfl⟩
         · cases c4 : Src.wkTimedOut ((drained s).now - sf) (drained s).timeout with
           | true =>
             rw [shutdownArm_false tx hf c1 c2 c3 c4]
             obtain ⟨e2, h3, h4⟩ := finish_quiet (emit (drained s) [.reply tx false]) true
-            exact ⟨hd, e1 ++ [.reply tx false] ++ e2, by rw [h3]; simp [h1], by rw [callsOf_append, callsOf_append, h2, h4]; rfl⟩
+            exact ⟨(finish_core4 (emit (drained s) [.reply tx false]) true).trans hd, e1 ++ [.reply tx false] ++ e2, by rw [h3]; simp [h1], by rw [callsOf_append, callsOf_append, h2, h4]; rfl⟩
           | false =>
             rw [shutdownArm_rearm tx hf c1 c2 c3 c4]
             exact ⟨hd, e1 ++ [.armTimer ((drained s).now + Src.wkTickNextMs)], by simp [emit, h1], by rw [callsOf_append, h2]; rfl⟩
@@ -1870,7 +1969,12 @@ theorem Acc.arm {s : St} (h : Acc s) (hg : Good s) (hf : s.finished = false) : A
     have hs1 : Acc s1 := h.frame c5 c10 c11 (fun k hk => (hno k hk).elim) ⟨tr ++ last, by rw [g1]; simp⟩
     cases r with
     | pending => rw [arm_avail_pending hst hal]; exact hs1
-    | closed => rw [arm_avail_closed hst hal]; exact hs1.finish false (by simp)
+    | closed =>
+      rw [arm_avail_closed hst hal]
+      rcases closedArm_cases s1 with ⟨_, _, e⟩ | ⟨_, _, e⟩ | ⟨_, e⟩ <;> rw [e]
+      · exact hs1.frame rfl rfl rfl (fun _ x => x) ⟨[], by simp⟩
+      · exact hs1.finish false (by simp)
+      · exact hs1.stopPhase (c11.trans hf)
     | toUnavailable => rw [arm_avail_unavail hst hal]; exact hs1.frame rfl rfl rfl (by rw [c3]; exact fun k hk => (hno k hk).elim) ⟨[], by simp⟩
     | restart i =>
       rw [arm_avail_restart hst hal]
@@ -1934,6 +2038,12 @@ theorem Acc.step {s : St} (h : Acc s) (hg : Good s) (op : Op) : Acc (step s op).
     split
     · exact h
     · exact ⟨h.fin, h.all⟩
+  | closeStop =>
+    simp only [ActixNet.Worker.step]
+    split
+    · exact h
+    · exact ⟨h.fin, h.all⟩
+  | pollY fuel acts => exact h
   | stop g =>
     simp only [ActixNet.Worker.step]
     split
@@ -1966,12 +2076,46 @@ theorem Acc.step {s : St} (h : Acc s) (hg : Good s) (op : Op) : Acc (step s op).
       have hg' : Good (emit s [.enter]) := ⟨hg.svc, hg.lg.plain (s' := emit s [.enter]) [.enter] (by intro e he; simp at he; subst he; exact ⟨rfl, rfl, rfl, rfl⟩) rfl rfl rfl rfl⟩
       exact Acc.pollW fuel _ (h.frame (s' := emit s [.enter]) rfl rfl rfl (fun _ x => x) ⟨_, rfl⟩) hg' hc.2
 
+theorem Acc.runEnv (acts : List EnvOp) : ∀ (s : St), Acc s → Good s → Acc (ActixNet.Worker.runEnv s acts).1 := by
+  induction acts with
+  | nil => intro s h _; exact h
+  | cons a as ih => intro s h hg; exact ih _ (h.step hg a.toOp) (hg.step a.toOp)
+
+theorem Acc.pollY {s : St} (h : Acc s) (hg : Good s) (hf : s.finished = false) (fuel : Nat) (acts : List EnvOp) :
+    Acc (ActixNet.Worker.pollY fuel acts s).1 := by
+  unfold ActixNet.Worker.pollY
+  split
+  · exact h.stopPhase hf
+  · rename_i hc
+    simp only [Bool.or_eq_true, not_or, Bool.not_eq_true] at hc
+    have hf0 : (ActixNet.Worker.stopPhase s).1.finished = false := (stopPhase_finished s hc.1).trans hf
+    have hf1 : (ActixNet.Worker.runEnv (ActixNet.Worker.stopPhase s).1 acts).1.finished = false := by
+      rw [runEnv_finished]; exact hf0
+    have hg1 := Good.runEnv acts _ hg.stopPhase
+    have ha1 := Acc.runEnv acts _ (h.stopPhase hf) hg.stopPhase
+    obtain ⟨g1, g2⟩ := hg1.arm hf1
+    split
+    · rename_i hb; exact Acc.pollW fuel _ (ha1.arm hg1 hf1) g1 (g2 hb)
+    · exact ha1.arm hg1 hf1
+
+theorem Acc.stepY {s : St} (h : Acc s) (hg : Good s) (op : Op) : Acc (ActixNet.Worker.stepY s op).1 := by
+  cases op with
+  | pollY fuel acts =>
+    simp only [ActixNet.Worker.stepY]
+    split
+    · exact h
+    · rename_i hc
+      simp only [Bool.or_eq_true, not_or, Bool.not_eq_true] at hc
+      have hg' : Good (emit s [.enter]) := ⟨hg.svc, hg.lg.plain (s' := emit s [.enter]) [.enter] (by intro e he; simp at he; subst he; exact ⟨rfl, rfl, rfl, rfl⟩) rfl rfl rfl rfl⟩
+      exact Acc.pollY (h.frame (s' := emit s [.enter]) rfl rfl rfl (fun _ x => x) ⟨_, rfl⟩) hg' hc.2 fuel acts
+  | _ => exact h.step hg _
+
 theorem Acc.init (cfg : Cfg) : Acc (init cfg) := ⟨fun _ => rfl, fun k hk => by simp [ActixNet.Worker.init] at hk⟩
 
 theorem Acc.run (ops : List Op) : ∀ (s : St), Acc s → Good s → Acc (run s ops) := by
   induction ops with
   | nil => intro s h _; exact h
-  | cons o os ih => intro s h hg; exact ih _ (h.step hg o) (hg.step o)
+  | cons o os ih => intro s h hg; exact ih _ (h.stepY hg o) (hg.stepY o)
 
 
 
@@ -2064,5 +2208,42 @@ theorem shutdown_poll_lemma {s : St} {t sf tx : Nat} (hst : s.state = .shutdown 
         show (drained e).finished = true ↔ _
         rw [d5, r6]; simp [c3', c4']
 
+
+
+/-! ### the accept thread's exit (closed connection channel) is not a stop command (F8) -/
+
+theorem sweepFrom_stopOpen (k : Nat) : ∀ (s : St) (i : Nat) (r : Bool), (sweepFrom s i r k).1.stopOpen = s.stopOpen := by
+  induction k with
+  | zero => intro s i r; rfl
+  | succ k ih =>
+    intro s i r
+    rcases sweepFrom_cases s i r k with ⟨_, h⟩ | ⟨_, _, h⟩ | ⟨_, _, h⟩ | ⟨_, _, h⟩ <;> rw [h]
+    · exact ih _ _ _
+    · rw [ih]; rfl
+    · rw [ih]; rfl
+    · rfl
+
+/-- a worker in `Available` whose connection channel is closed and drained, with no `Stop` in its stop
+channel (which is still open), waits: nothing is answered, nothing finishes, the waker is registered -/
+theorem arm_closed_waits {s : St} (hst : s.state = .available) (hc : Calm s) (hco : s.chanOpen = false)
+    (hqu : s.queue = []) (hq : s.stopQ = []) (ho : s.stopOpen = true) :
+    (arm s).2 = false ∧ (arm s).1.finished = s.finished ∧ (arm s).1.inflight = s.inflight ∧
+    (arm s).1.stopWaker = true ∧ (arm s).1.state = .available ∧ (arm s).1.fault = s.fault ∧
+    ∃ evs, (arm s).1.log = s.log ++ evs ∧ ∀ e ∈ evs, e.isPR = true := by
+  obtain ⟨s1, hsw, _⟩ := sweep_calm hc
+  have hcore := sweep_n hsw
+  simp only [core, Prod.mk.injEq] at hcore
+  obtain ⟨c1, c2, c3, c4, c5, c6, c7, c8, c9, c10, c11, c12, c13, c14, c15, c16⟩ := hcore
+  have hso : s1.stopOpen = s.stopOpen := by
+    have := sweepFrom_stopOpen s.n s 0 true
+    unfold sweep at hsw; rw [hsw] at this; exact this
+  have hlog := sweepFrom_ok s.n s 0 true true (by unfold sweep at hsw; rw [hsw])
+  unfold sweep at hsw
+  rw [hsw] at hlog
+  obtain ⟨evs, e1, e2⟩ := hlog
+  have hal : availLoop s s.queue = ({ s1 with queue := [] }, .closed) := by
+    rw [hqu]; exact availLoop_nil_closed (by unfold sweep; exact hsw) (c5.trans hco)
+  rw [arm_avail_closed hst hal, closedArm_nil_open (s := { s1 with queue := [] }) (c6.trans hq) (hso.trans ho)]
+  exact ⟨rfl, c13, c9, rfl, c3.trans hst, c16, evs, e1, fun e he => (e2 e he).1⟩
 
 end ActixNet.Worker
